@@ -128,13 +128,24 @@ class ReaderModel(Model):
     def compare(self, it, fr, n, op, a, b):
         L, R = n['c'][0], n['c'][1]
         # position against the input size
+        # every spelling of "position vs size" is reduced to the three guards AVAIL (pos < size), ENOUGH (pos <= size), ATEND (pos == size)
+        pa, pop = None, op
         if isinstance(a, Pos) and isinstance(b, Sym) and b.tag == 'SIZE':
-            if op == '<':
-                return Sym(('GUARD', 'AVAIL@%s' % (self.show_off(a.k),)))
-            if op == '<=':
-                return Sym(('GUARD', 'ENOUGH@%s' % (self.show_off(a.k),)))
-            if op == '==':
+            pa = a
+        elif isinstance(b, Pos) and isinstance(a, Sym) and a.tag == 'SIZE':
+            pa, pop = b, {'<': '>', '>': '<', '<=': '>=', '>=': '<=', '==': '==', '!=': '!='}[op]
+        if pa is not None:
+            if pop == '<':
+                return Sym(('GUARD', 'AVAIL@%s' % (self.show_off(pa.k),)))
+            if pop == '<=':
+                return Sym(('GUARD', 'ENOUGH@%s' % (self.show_off(pa.k),)))
+            if pop == '==':
                 return Sym(('GUARD', 'ATEND'))
+            neg = {'>=': 'AVAIL@%s', '>': 'ENOUGH@%s'}.get(pop)
+            if neg is not None:
+                return 0 if it.choose(neg % (self.show_off(pa.k),)) else 1
+            if pop == '!=':
+                return 0 if it.choose('ATEND') else 1
         for x, y, xl, yl in ((a, b, L, R), (b, a, R, L)):
             if isinstance(x, Sym) and isinstance(x.tag, tuple) and x.tag[0] == 'BYTE' and isinstance(y, int):
                 lab = 'BYTE[%s]%s%d' % (x.tag[1], op, y)
@@ -145,6 +156,12 @@ class ReaderModel(Model):
             flip = {'<': '>', '>': '<', '<=': '>=', '>=': '<=', '==': '==', '!=': '!='}
             (lo, _), (kc, _), o = (la, lb, op) if la[1] > 0 else (lb, la, flip[op])
             # value >= lo ; compare "value o kc"
+            if kc == lo and (la[1] if la[1] > 0 else lb[1]) > 0:
+                # value == its lower bound  <=>  the length is zero: one guard for every spelling
+                if o in ('==', '<='):
+                    return Sym(('GUARD', 'LENZERO'))
+                if o in ('!=', '>'):
+                    return 0 if it.choose('LENZERO') else 1
             if o == '==' and kc < lo:
                 return 0
             if o == '!=' and kc < lo:
@@ -933,7 +950,14 @@ def check_skip_extent(prog, rep, rule):
         badb = []
         for b in range(256):
             exp = expected_skip(b)
-            got = set(skip_summary(p) for p in per[b] if sufficient(p) and p.outcome[0] == 'RET')
+            got = set()
+            for p in per[b]:
+                if not (sufficient(p) and p.outcome[0] == 'RET'):
+                    continue
+                g = skip_summary(p)
+                if ('LENZERO', True) in p.guards and g == (exp[0].replace('+LEN', ''), '0'):
+                    g = exp            # a zero-length payload: the extent is the header alone, which is what the layout says for LEN = 0
+                got.add(g)
             if exp in got and all(g == exp or (g[0] == exp[0] and g[1] == '0' and exp[1] in ('LEN', '2LEN')) for g in got):
                 rep.ok(rule, '%s|SkipValueImpl|%02x' % (kind, b),
                        sample={'reader': kind, 'first_byte': '0x%02x' % b, 'extent': exp[0], 'nested_values': exp[1]} if b in (0xde, 0xc7) else None)
